@@ -8,6 +8,7 @@
 //!              1 = a violation that is not a known finding (a line `VIOLATION property=<id> replay=<path>`),
 //!              2 = the harness itself could not do its job (build failure, non-reproducible candidate, ...).
 
+mod c15;
 mod c17;
 mod catalogue;
 mod codec;
@@ -94,11 +95,12 @@ fn real_main() -> Result<i32, String> {
             }
             codec::run(&w, &cmd, &opts)
         }
-        "C18" | "C07" | "C17" => {
+        "C18" | "C07" | "C17" | "C15" => {
             let w = ws::Ws::generate()?;
             let prop: Box<dyn simcheck::Property> = match cmd.as_str() {
                 "C18" => Box::new(props::C18),
                 "C17" => Box::new(c17::C17),
+                "C15" => Box::new(c15::C15),
                 _ => Box::new(props::C07),
             };
             if let Some(f) = &opts.replay {
